@@ -156,8 +156,16 @@ theorem fits_ok (d : ElfDesc) (B : Nat) (users : List Nat) (h : fits d B users =
     relocation `r` of a placed object `(d, B)` that names a symbol (`R_386_32`, `R_386_GLOB_DAT`,
     `R_386_JMP_SLOT`) whose name `n` some placed object exports, the little-endian word at
     `r_offset + B` is `st_value + B'` (mod 2^32) of a defined global or weak dynamic symbol `s` named
-    `n` of the FIRST placed object `(d', B')` that exports `n` — its base added exactly once. -/
-theorem link_once (placed : List (ElfDesc × Nat)) (img : Img) (h : linkSpecX86 placed = .ok img)
+    `n` of the FIRST placed object `(d', B')` that exports `n` — its base added exactly once.
+
+    PARTIAL.  Full statement of the property: "when several objects are linked, each relocated word
+    holds the once-rebased address of the symbol it names", for every relocation kind the linker
+    implements.  Proved here: the three symbol-naming x86 kinds (REL, RELA and JMPREL tables).  Missing:
+    the same statement for the external GOT entries of MIPS o32 objects (`mipsGotSyms`: entry
+    `DT_MIPS_LOCAL_GOTNO + k` names dynamic symbol `DT_MIPS_GOTSYM + k`); those words are covered by the
+    correspondence check only (model `link` = falcon on every generated MIPS link).  `R_386_RELATIVE`
+    and `R_MIPS_REL32` name no symbol (word += base, see `relocX86`, `relocMipsRel`). -/
+theorem link_once_partial (placed : List (ElfDesc × Nat)) (img : Img) (h : linkSpecX86 placed = .ok img)
     (hap : (steps placed).Pairwise (fun s s' => Apart s.site s'.site))
     (d : ElfDesc) (B : Nat) (hd : (d, B) ∈ placed)
     (r : Rel) (hr : r ∈ d.relas ++ d.rels ++ d.plt) (hk : r.namesSymbolX86 = true)
@@ -201,7 +209,7 @@ example : (entries exObj 0x1000 [0x401003]).map (·.1) = [0x402000, 0x402002, 0x
 example : symbols exObj 0x1000 = [(0x402002, "main"), (0x403002, "buf"), (0x403004, "puts")] := by decide
 example : programEntry exObj 0x1000 = 0x402000 := by decide
 
-/-! ## non-vacuity of `link_once`: a program importing `puts` from a library placed at 0x42000000 -/
+/-! ## non-vacuity of `link_once_partial`: a program importing `puts` from a library placed at 0x42000000 -/
 
 def exProg : ElfDesc :=
   { name := "prog", cls := .c32, enc := .lsb, machine := EM_386, etype := 2, entry := 0x8048000,
